@@ -315,6 +315,9 @@ def gate_groups(tag, tier, aliases=(0, 1, 2, 3, 4)):
     gs.append(Group(tag + '.NOT_COPY_CONSTANT', 'c01_gates.c', 'h_gate1',
                     extract=[(BG, 'bootsNOT'), (BG, 'bootsCOPY'), (BG, 'bootsCONSTANT'), (NF, 'modSwitchToTorus32')],
                     replace=['lweNoiselessTrivial', 'lweNegate', 'lweCopy'], defines={'H_GATE1': None}, timeout=900, replay=('gate', 'NOT_COPY_CONSTANT')))
+    gs.append(Group(tag + '.NOT_COPY.inplace', 'c01_gates.c', 'h_gate1', extract=[(BG, 'bootsNOT'), (BG, 'bootsCOPY'), (BG, 'bootsCONSTANT'), (NF, 'modSwitchToTorus32')],
+                    replace=['lweNegate', 'lweCopy'], defines={'H_GATE1': None, 'KNOB_ALIAS': None}, timeout=900, replay=('gate', 'NOT_COPY_CONSTANT'),
+                    instance={'aliasing': 'result == input'}))
     return gs
 
 
@@ -526,6 +529,7 @@ def c03_groups(tier, tag='C03'):
     gs.append(Group(tag + '.tLweSymEncryptT', 'c03_encrypt.c', 'h_tLweSymEncrypt', extract=[(TL, 'tLweSymEncryptT')], defines={'H_TLWE_ENC': None, 'ENC_T': None}))
     gs.append(Group(tag + '.tLwePhase', 'c03_encrypt.c', 'h_tLwePhase', extract=[(TL, 'tLwePhase')], loops=True, defines={'H_TLWE_PHASE': None}))
     gs.append(Group(tag + '.tLweApproxPhase', 'c03_encrypt.c', 'h_tLweApproxPhase', extract=[(TL, 'tLweApproxPhase')], loops=True, defines={'H_TLWE_PHASE': None}))
+    gs.append(Group(tag + '.tLweSymDecrypt+T', 'c03_encrypt.c', 'h_tLweSymDecrypt', extract=[(TL, 'tLweSymDecrypt'), (TL, 'tLweSymDecryptT')], defines={'H_TLWE_DEC': None}))
     # noiseless trivial samples: all-zero mask, b = mu (C14 contract enforced on the real body)
     gs.append(Group(tag + '.dep.lweNoiselessTrivial', 'c14_lwe.c', 'h_lweNoiselessTrivial', extract=[(LF, 'lweNoiselessTrivial')], enforce='lweNoiselessTrivial', loops=True))
     return gs
@@ -744,7 +748,7 @@ PROPS = {
                        'bounded stand-in in n. TLWE / TGSW decryption is not claimed.',
         'assumptions': STD_ASSUME + [
             'pairing of the encryption loop and the phase loop (sum a_i*s_i): bounded stand-in, n in {1,2,4,8}(..32), all coefficient / key / error values symbolic (z3)',
-            'TLWE: wiring of tLweSymEncrypt(T) / tLwePhase / tLweApproxPhase proved with the ring products as monitors (ASSUMED: torusPolynomialAddMulR/SubMulR equal the exact negacyclic multiply-accumulate); tLweSymDecrypt(T) and all TGSW decryption (tGswSymDecrypt) are not under contract',
+            'TLWE: wiring of tLweSymEncrypt(T) / tLwePhase / tLweApproxPhase proved with the ring products as monitors (ASSUMED: torusPolynomialAddMulR/SubMulR equal the exact negacyclic multiply-accumulate); tLweSymDecrypt / tLweSymDecryptT wiring proved likewise; TGSW decryption (tGswSymDecrypt) is not under contract',
             'the samplers are declared-only draws (assumed contract of libstdc++); the gaussian error is an arbitrary finite double, its size is not bounded by alpha here',
             'Msize enumerated; noise bound "Msize*alpha <= 1/20" enters only as the decoding radius |e| < 1/(2 Msize) - 2 units',
         ],
